@@ -14,7 +14,7 @@ import time
 from concurrent.futures import ThreadPoolExecutor
 
 VERIF = os.path.dirname(os.path.dirname(os.path.abspath(__file__)))
-SCRATCH = "/tmp/vmut"
+SCRATCH = "/tmp/vmut/%d" % os.getpid()
 
 
 def run_one(pid, mut, tier, idx):
